@@ -1,9 +1,21 @@
 """C06 - the frequency-domain representations of a filter agree (engine L).
 
-For every constructible bank of the C05 lattice, every filter and every DFT width of a finite
+For every constructible bank of the lattice, every filter and every DFT width of a finite
 list: get_truncated_response, rebuilt by the docstring recipe (mc/refs/banks.py:rebuild_full),
 against get_frequency_response; index ranges; half=True; Hermitian symmetry of real banks;
 analytic triangular banks vanish on negative frequencies; all values finite.
+
+  agree_<class>   the C05 design lattice plus odd-rate banks (default top edge, floor(rate/2))
+  agree_boundary  triangular / Fbank banks whose top edge sits on every boundary the constructors
+                  know (default, floor(rate/2), rate/2, rate/2 + 0.5, rate/2 + 1; even and odd
+                  rates) x the quick widths and widths large enough to resolve 0.5 Hz at the
+                  Nyquist frequency
+  history         call histories on ONE bank object (engine in c05.py): every sequence of 2 / 3
+                  calls over {get_frequency_response(half False / True), get_truncated_response}
+
+Every (bank, filter, width) case is evaluated on a bank object of its own (truncated, full,
+half - in this order), which is exactly what the replay of the case does: a case cannot depend
+on the cases evaluated before it.  Dependence on call history is the business of `history`.
 """
 import numpy as np
 
@@ -13,8 +25,14 @@ from . import c05
 
 LEVEL = "exploration"
 ASSUMPTIONS = [
-    "the bank lattice is C05's (4 classes x 4 scales x num_filts x 3 rates x 4 ranges x every flag "
-    "combination); widths are a stated finite list, not all integers",
+    "the bank lattice is C05's design lattice (4 classes x 4 scales x num_filts x 3 rates x 4 ranges x every "
+    "flag combination) plus boundary banks: odd / fractional rates {1001.5, 11025} with the default and the floor(rate/2) top "
+    "edge for all classes, and for the compactly supported classes rates {1000, 1001, 2000.5, 8000} x top edge in "
+    "{default, floor(rate/2), rate/2, rate/2 + 0.5, rate/2 + 1}; widths are a stated finite list, not all "
+    "integers",
+    "every case runs on a bank object of its own (enumeration: a copy of a constructed object that "
+    "was never used, mutable attributes deep-copied; replay: a newly constructed object - assumed equivalent); the history sub-check's differential oracle is a fresh "
+    "object of the same class in the same process (see C05): state shared between objects is not explored",
     "a valid configuration whose constructor raises is counted as unconstructible (C05's rule)",
     "'identical' (triangular, Fbank) is read as |difference| <= 1e-12: Fbank's two code paths differ by "
     "one ulp (scalar vs array square root), which is not counted as a disagreement",
@@ -27,6 +45,10 @@ QUICK_WIDTHS = (2, 3, 4, 5, 7, 8, 16, 31, 32, 64, 127, 200, 256, 512)
 COMPACT_TOL = 1e-12
 FEW_WIDTHS = {"quick": (3, 64), "thorough": (3, 8, 64, 255)}
 MAX_PERIODS = 4096
+# resolving a top edge 0.5 / 1 Hz above the Nyquist frequency takes rate / (2 * excess) bins (odd widths)
+# or twice that (even widths): 1001 / 2000 at 1 kHz, 4001 / 8192 at 8 kHz (1 Hz)
+BIG_WIDTHS = (1001, 2000, 4001, 8192)
+ODD_RATES = (1001.5, 11025)
 
 
 def widths_for(tier, kind):
@@ -142,12 +164,25 @@ def _eval_fw(bank, b, tags, i, w, e):
     return out, notes
 
 
+def _case(b, i, w, e, pristine=None):
+    """one (bank, filter, width) case on a bank object of its own -> (findings, notes) or None"""
+    if pristine is not None:
+        bank = pristine.fresh()
+    else:
+        r = c05.build(b)
+        if r[0] != "ok":
+            return None
+        bank = r[1]
+    return _eval_fw(bank, b, c05.bank_tags(b), i, w, e)
+
+
 @c05.quiet
-def _bank(b, tier):
+def _bank(b, tier, widths_fn=None):
     r = c05.build(b)
     if r[0] != "ok":
         return c05.unconstructible(r)
-    bank = r[1]
+    bank = r[1]  # only read for num_filts / supports_hz; every case gets an object of its own
+    pristine = c05.Pristine(b)  # never touched, only copied
     tags = c05.bank_tags(b)
     e = c05.eps()
     viol, seen, notes = [], set(), set()
@@ -157,14 +192,17 @@ def _bank(b, tier):
     # max_centered only multiplies the response by a phase factor; the every-width sweep is run on
     # the causal twin of each gammatone bank
     extra = b["num_filts"] > 11 or b.get("scaling_function") in c05.EXTRA_SCALES or \
-        bool(b.get("max_centered", False))
+        bool(b.get("max_centered", False)) or b["sampling_rate"] in ODD_RATES
     for i in range(bank.num_filts):
         try:
             lo, hi = bank.supports_hz[i]
             periods = (float(hi) - float(lo)) / rate
         except Exception:
             periods = 0.0
-        widths = widths_for_filter(tier, b["name"], periods, extra_bank=extra)
+        if widths_fn is not None:
+            widths = widths_fn(b)
+        else:
+            widths = widths_for_filter(tier, b["name"], periods, extra_bank=extra)
         if widths is None:
             notes.add("not_enumerated_too_many_periods")
             continue
@@ -173,14 +211,14 @@ def _bank(b, tier):
         nwidths += len(widths)
         for w in widths:
             evals += 1
-            got, nt = _eval_fw(bank, b, tags, i, w, e)
+            got, nt = _case(b, i, w, e, pristine)
             notes |= nt
             if "nonzero" in nt:
                 nontriv += 1
-            for what, extra, detail in got:
-                key = (what,) + tuple(sorted(extra.items()))
+            for what, extra_tags, detail in got:
+                key = (what,) + tuple(sorted(extra_tags.items()))
                 if key not in seen:
-                    viol.append(core.violation(dict(tags, what=what, **extra), detail,
+                    viol.append(core.violation(dict(tags, what=what, **extra_tags), detail,
                                                dict(bank=b, filt=i, width=w)))
                 seen.add(key)
     return core.result(viol, evals=evals, nontrivial_count=nontriv,
@@ -191,20 +229,42 @@ def _bank(b, tier):
 @c05.quiet
 def _replay(case):
     b = case["bank"]
-    r = c05.build(b)
-    if r[0] != "ok":
-        return c05.unconstructible(r)
-    got, _ = _eval_fw(r[1], b, c05.bank_tags(b), case["filt"], case["width"], c05.eps())
+    res = _case(b, case["filt"], case["width"], c05.eps())
+    if res is None:
+        return c05.unconstructible(c05.build(b))
     return core.result([core.violation(dict(c05.bank_tags(b), what=what, **extra), detail, case)
-                        for what, extra, detail in got])
+                        for what, extra, detail in res[0]])
+
+
+def odd_rate_ranges(kind, rate):
+    """odd rates in the per-class sub-checks: the default top edge and floor(rate/2), which every class
+    accepts (the other boundary values are in agree_boundary for the classes that accept them)"""
+    return [(low, high) for low in (0.0, 20.0) for high in (None, c05.floor_nyquist(rate))]
+
+
+def odd_banks(tier):
+    nfs = (1, 3, 11) if tier == "thorough" else (1, 3)
+    return c05.bank_lattice(c05.ALL_KINDS, nfs, ODD_RATES, orders=(2, 4, 6), ranges_fn=odd_rate_ranges)
+
+
+def boundary_banks(tier):
+    return c05.edge_lattice(("tri", "fbank"), nfs=(1, 3, 11) if tier == "thorough" else (1, 3))
+
+
+def boundary_widths(b):
+    return list(QUICK_WIDTHS) + list(BIG_WIDTHS)
+
+
+def _alphabet(b, bank):
+    return c05.history_alphabet(b, ("freq", "freq_half", "trunc"), lambda i: c05.HISTORY_WIDTHS)
 
 
 def lattice(tier):
     if tier == "quick":
         # order-1 gammatones cost ~1000 periods per bin: sub-lattice num_filts {1, 3} in the quick tier
         return c05.tier_lattice(tier, orders=(2, 4, 6)) + \
-            c05.bank_lattice(("gammatone",), (1, 3), c05.RATES, orders=(1,))
-    return c05.tier_lattice(tier)
+            c05.bank_lattice(("gammatone",), (1, 3), c05.RATES, orders=(1,)) + odd_banks(tier)
+    return c05.tier_lattice(tier) + odd_banks(tier)
 
 
 def subchecks(tier, seed):
@@ -215,20 +275,56 @@ def subchecks(tier, seed):
         pts = [b for b in banks if b["name"] == kind]
         subs.append(core.SubCheck(
             "agree_" + kind, pts, lambda b: _bank(b, tier),
-            "%s banks of the C05 lattice x every filter x %d DFT widths (%s): rebuilt truncated response vs "
+            "%s banks of the C05 design lattice and of odd sampling rates (default / floor(rate/2) top edge) x every "
+            "filter x %d DFT widths (%s), each case on a bank object of its own: rebuilt truncated response vs "
             "get_frequency_response (<= 2 eps; triangular/Fbank: <= 1e-12, i.e. identical up to the last bit), 0 <= start < width, real "
             "banks inside the half spectrum, half=True = leading bins with the documented length, Hermitian "
             "symmetry (real), zero negative frequencies (analytic triangular), finiteness. non-trivial = "
             "the rebuilt response has a non-zero bin; trivial bank = constructor raised. Cost bound: a filter "
             "whose supports_hz spans more than %d (quick) / 8, 64 (thorough) periods of the sampling rate gets "
             "the shorter width lists %r / %r; banks with more than 11 filters or a re-parameterised scale "
-            "(thorough only) and max_centered gammatone banks use the first of these lists" % (
+            "(thorough only), odd-rate banks and max_centered gammatone banks use the first of these lists" % (
                 c05.CLASSNAME[kind], len(ws),
                 ",".join(map(str, ws)) if len(ws) < 20 else "%d..%d and %s" % (
                     ws[0], max(x for x in ws if x < 1000), [x for x in ws if x >= 1000]),
                 32, QUICK_WIDTHS, FEW_WIDTHS[tier]),
-            axes=dict(num_filts=sorted(set(b["num_filts"] for b in pts)), rate=[1000, 8000, 16000],
+            axes=dict(num_filts=sorted(set(b["num_filts"] for b in pts)),
+                      rate=sorted(set(b["sampling_rate"] for b in pts)),
                       scale=list(c05.SCALES), width=ws if len(ws) < 20 else "%d widths" % len(ws),
+                      low_high="design lattice (see C05); odd rates %r: low {0, 20} x high {None, floor(rate/2)}" % (
+                          ODD_RATES,),
                       flags="every combination (see C05)"),
             replay=_replay, chunk=4))
+    bpts = boundary_banks(tier)
+    bws = boundary_widths(None)
+    subs.append(core.SubCheck(
+        "agree_boundary", bpts, lambda b: _bank(b, tier, widths_fn=boundary_widths),
+        "triangular / Fbank banks x 4 scales x num_filts x rates %r x low {0, 20} x top edge in {default, "
+        "floor(rate/2), rate/2, rate/2 + 0.5, rate/2 + 1} x analytic x every filter x widths %r (the large ones "
+        "resolve 0.5 Hz at the Nyquist frequency): the same oracles as agree_<class>. A configuration the "
+        "class rejects (Fbank above floor(rate/2)) is counted as unconstructible; non-trivial = the rebuilt "
+        "response has a non-zero bin" % (c05.EDGE_RATES, tuple(bws)),
+        axes=dict(bank=["Fbank", "TriangularOverlappingFilterBank"],
+                  num_filts=sorted(set(b["num_filts"] for b in bpts)), rate=list(c05.EDGE_RATES),
+                  scale=list(c05.SCALES), low=[0.0, 20.0],
+                  high="None, floor(rate/2), rate/2, rate/2 + 0.5, rate/2 + 1", width=bws, flags="analytic"),
+        replay=_replay, chunk=4))
+    hist_banks = c05.history_banks(tier)
+    hist_alpha = 3 * 2 * len(c05.HISTORY_WIDTHS)
+    depth = 3 if tier == "thorough" else 2
+    subs.append(core.SubCheck(
+        "history", c05.history_points(tier, hist_banks, hist_alpha), lambda pt: c05.history_point(pt, _alphabet),
+        "call histories on ONE bank object: 4 classes x every flag combination (gammatone orders 2, 4) x "
+        "num_filts x rates (mel, low 0, default high) x every sequence of %d calls over "
+        "{get_frequency_response(half False / True), get_truncated_response} x {first, last filter} x widths %r "
+        "(full at 9, half at 16 and 17 all have 9 bins). Every result is held to the end of the sequence; then "
+        "(1) its copy taken on return agrees (1e-12) with a fresh object's result for that call, (2) the held "
+        "array is bit-identical to that copy, (3) no two held arrays share memory, (4) after the caller "
+        "overwrites the held arrays with NaN the same calls still agree with a fresh object, (5) centres / "
+        "supports are unchanged. evaluations = sequences; non-trivial = two different calls of the sequence "
+        "return arrays of equal shape" % (depth, c05.HISTORY_WIDTHS),
+        axes=dict(bank=sorted(c05.CLASSNAME), num_filts=sorted(set(b["num_filts"] for b in hist_banks)),
+                  rate=sorted(set(b["sampling_rate"] for b in hist_banks)), width=list(c05.HISTORY_WIDTHS),
+                  depth=depth, alphabet=hist_alpha),
+        replay=c05.history_replay, chunk=1, kind="histories"))
     return subs
